@@ -278,4 +278,10 @@ _rep("C13", "technique", "by induction over bones and sections)", "by induction 
 _rep("C16", "technique", "bit-packing round trip via chunking lemmas)", "bit-packing round trip via chunking lemmas; header write->read over the generic record codec)")
 _rep("C01", "technique", "probing invariant)", "probing invariant; header V1-V4 write->read and read->write over the generic record codec)")
 _rep("C18", "technique", "chunk-framing induction)", "chunk-framing induction, payload records over the generic record codec)")
+_ins("C06", "text", "Tied to the code by",
+     "COMPACT (Model.C06Compact: refuse an archive with a live entry no listed name resolves, fail when a file cannot be read, otherwise "
+     "re-add every file to a fresh archive = C07's extraction without exclusions): when it succeeds the new archive holds under every live "
+     "name exactly the content read from the old one and nothing else (compact_preserves_map, from C07's rebuilt_lookup / extract_sound / "
+     "extract_complete); one unresolvable entry and nothing is replaced (compact_refuses_unresolvable). ")
+_rep("C06", "note", "compact is covered by the correspondence and the oracle, not by a theorem of its own;", "compact's decision and result are stated as theorems about Model.C06Compact, whose refusal gate is the `resolvable` predicate the correspondence compares and whose result is what the map oracle compares after reopening;")
 
